@@ -4,3 +4,4 @@ pub mod zone;
 pub mod cache;
 pub mod upstream;
 pub mod resolve;
+pub mod server;
